@@ -25,6 +25,7 @@ impl<T> SharedData<T> {
     ///
     /// In case this is needed to be stored and/or used outside of the function,
     /// it is recommended to use the `read_fn` method instead.
+    #[cfg(not(brc20_verif))]
     pub fn read(&'_ self) -> RwLockReadGuard<'_, T> {
         match self.inner.read() {
             Ok(guard) => guard,
@@ -34,6 +35,7 @@ impl<T> SharedData<T> {
 
     /// This method allows you to read from the inner data and handle errors.
     /// It returns a result of the operation.
+    #[cfg(not(brc20_verif))]
     pub fn read_fn<F, R>(&self, f: F) -> Result<R, Box<dyn Error>>
     where
         F: FnOnce(&T) -> Result<R, Box<dyn Error>>,
@@ -46,6 +48,7 @@ impl<T> SharedData<T> {
     }
 
     /// This method allows you to read from the inner data and handle errors.
+    #[cfg(not(brc20_verif))]
     pub fn write_fn<F, R>(&self, f: F) -> Result<R, Box<dyn Error>>
     where
         F: FnOnce(&mut T) -> Result<R, Box<dyn Error>>,
@@ -55,11 +58,112 @@ impl<T> SharedData<T> {
     }
 
     /// This method allows you to write to the inner data without checking for errors.
+    #[cfg(not(brc20_verif))]
     pub fn write_fn_unchecked<F>(&self, f: F)
     where
         F: FnOnce(&mut T) -> (),
     {
         let mut guard = self.inner.write().expect("Failed to acquire write lock");
+        f(&mut guard)
+    }
+}
+
+/// Read guard that reports its release to the lock-event recorder.
+#[cfg(brc20_verif)]
+pub struct TracedReadGuard<'a, T> {
+    guard: RwLockReadGuard<'a, T>,
+    lock: &'static str,
+    loc: &'static std::panic::Location<'static>,
+}
+
+#[cfg(brc20_verif)]
+impl<'a, T> std::ops::Deref for TracedReadGuard<'a, T> {
+    type Target = T;
+    fn deref(&self) -> &T {
+        &*self.guard
+    }
+}
+
+#[cfg(brc20_verif)]
+impl<'a, T> Drop for TracedReadGuard<'a, T> {
+    fn drop(&mut self) {
+        crate::verif::lock_event(self.lock, "RelR", self.loc);
+    }
+}
+
+#[cfg(brc20_verif)]
+struct TracedRelease {
+    lock: &'static str,
+    kind: &'static str,
+    loc: &'static std::panic::Location<'static>,
+}
+
+#[cfg(brc20_verif)]
+impl Drop for TracedRelease {
+    fn drop(&mut self) {
+        crate::verif::lock_event(self.lock, self.kind, self.loc);
+    }
+}
+
+/// Instrumented twins of the four accessors: same locking, plus one event per request,
+/// acquisition and release (the release also on unwinding).
+#[cfg(brc20_verif)]
+impl<T> SharedData<T> {
+    #[track_caller]
+    pub fn read(&'_ self) -> TracedReadGuard<'_, T> {
+        let loc = std::panic::Location::caller();
+        let lock = std::any::type_name::<T>();
+        crate::verif::lock_event(lock, "ReqR", loc);
+        let guard = match self.inner.read() {
+            Ok(guard) => guard,
+            Err(error) => error.into_inner(),
+        };
+        crate::verif::lock_event(lock, "AcqR", loc);
+        TracedReadGuard { guard, lock, loc }
+    }
+
+    #[track_caller]
+    pub fn read_fn<F, R>(&self, f: F) -> Result<R, Box<dyn Error>>
+    where
+        F: FnOnce(&T) -> Result<R, Box<dyn Error>>,
+    {
+        let loc = std::panic::Location::caller();
+        let lock = std::any::type_name::<T>();
+        crate::verif::lock_event(lock, "ReqR", loc);
+        let guard = match self.inner.read() {
+            Ok(guard) => guard,
+            Err(error) => error.into_inner(),
+        };
+        crate::verif::lock_event(lock, "AcqR", loc);
+        let _release = TracedRelease { lock, kind: "RelR", loc };
+        f(&*guard)
+    }
+
+    #[track_caller]
+    pub fn write_fn<F, R>(&self, f: F) -> Result<R, Box<dyn Error>>
+    where
+        F: FnOnce(&mut T) -> Result<R, Box<dyn Error>>,
+    {
+        let loc = std::panic::Location::caller();
+        let lock = std::any::type_name::<T>();
+        crate::verif::lock_event(lock, "ReqW", loc);
+        let mut guard = self.inner.write().expect("Failed to acquire write lock");
+        crate::verif::lock_event(lock, "AcqW", loc);
+        let _release = TracedRelease { lock, kind: "RelW", loc };
+        f(&mut guard)
+    }
+
+    #[track_caller]
+    pub fn write_fn_unchecked<F>(&self, f: F)
+    where
+        F: FnOnce(&mut T) -> (),
+    {
+        let loc = std::panic::Location::caller();
+        let lock = std::any::type_name::<T>();
+        crate::verif::lock_event(lock, "ReqW", loc);
+        let mut guard = self.inner.write().expect("Failed to acquire write lock");
+        crate::verif::lock_event(lock, "AcqW", loc);
+        let _release = TracedRelease { lock, kind: "RelW", loc };
         f(&mut guard)
     }
 }
